@@ -95,7 +95,7 @@ Proof.
     + apply okerr_bind; [|intros; apply IH].
       destruct (len =? 1); [apply okerr_unpackB|]. destruct (len =? 2); [apply okerr_unpackH|]. destruct (len =? 4); [apply okerr_unpackI|ok_leaf].
     + apply IH.
-    + apply okerr_bind; [apply okerr_ascii_decode|]. intros; apply IH.
+    + apply okerr_bind; [destruct (mem tag tlv_cstring_tags_tlv); [apply okerr_ascii_decode|apply okerr_ok]|]. intros; apply IH.
 Qed.
 
 (* ---- times: the OverflowError branches of the model are unreachable for two-character fields ---- *)
